@@ -70,3 +70,16 @@ package keeper
 //@ ensures [W-ccval] forall a bytes :: k.GetCCValidator(ctx, a).1 ==> k.GetCCValidator(ctx, a).0.Address == a
 //@ ensures [out-len] len(result) <= len(changes)
 //@ ensures [no-effects] E == old(E)
+
+// ---------------------------------------------------------------- C16: splitting the fees on the consumer
+
+//@ func Keeper.DistributeRewardsInternally
+//@ let fp := old(k.bankKeeper.GetAllBalances(ctx, k.authKeeper.GetModuleAccount(ctx, k.feeCollectorName).GetAddress()))
+//@ let frac := math.LegacyNewDecFromStr(k.GetConsumerRedistributionFrac(ctx))
+//@ let cons := sdk.NewDecCoinsFromCoins(fp).MulDec(frac.0).TruncateDecimal().0
+//@ ensures [split] E == elog(old(E), eff_BankKeeper_SendCoinsFromModuleToModule(k.feeCollectorName, types.ConsumerRedistributeName, cons), eff_BankKeeper_SendCoinsFromModuleToModule(k.feeCollectorName, types.ConsumerToSendToProviderName, fp.Sub(cons)))
+//@ ensures [store] S == old(S)
+
+//@ func Keeper.shouldSendRewardsToProvider
+//@ ensures [def] result <==> height - k.GetLastTransmissionBlockHeight(ctx).Height >= k.GetBlocksPerDistributionTransmission(ctx)
+//@ ensures [pure] S == old(S) && E == old(E) && X == old(X)
